@@ -1154,6 +1154,9 @@ pub fn c06(ctx: &Ctx, rep: &mut Report) {
     // the id of a stream that ended on the wire is used again while the application still holds the old handle
     ctx.prop(rep, "stale-handle", t.pick(20_000, 400_000), 0, c06_stale_case, run_c06_stale);
     ctx.enumerate(rep, "stale-handle-newer-first", NEWER_FIRST_CASES, 3, newer_first_case, run_c06_newer_first);
+    // a stream whose requester gave up around the moment the peer's Acknowledge arrived is dropped un-collected: like every stream
+    // dropped without shutdown it must be aborted on the wire (Reset) and its id released (family shared with C07 / C10)
+    ctx.enumerate(rep, "abandoned-request", CANCELLED_REQUEST_CASES, 6, cancelled_request_case, run_cancelled_request);
     // many streams aborted in the same instant (the owner of N streams goes away): every one of them must be reset on the
     // wire and reach end-of-stream at the peer, whatever N is
     const BURST: [usize; 6] = [2, 33, 34, 65, 130, 300];
